@@ -31,6 +31,7 @@ ACTIONS = [
     "Enter", "SaveSignals", "ScheduleTimeout", "PatchStop", "Start", "RunFunction", "Tick", "FireNext",
     "LoopExit", "Exit", "GetResult", "Clean", "Finish",
 ]  # fmt: skip
+TWO_RUN = ["ClearJunk", "NextRun"]
 
 
 def _py_int(*a):
@@ -110,6 +111,8 @@ class World:
         self.custom_stop = None
         self.sels = []
         self.results = []  # per run: (cls, obj)
+        self.old_d = None  # the Deferred the previous run's f returned, if it never fired
+        self.vold = ["vold"]  # what the second run's f fires it with
 
     def make_reactor(self, inst):
         if self.real:
@@ -118,6 +121,7 @@ class World:
             self.reactor = SelectReactor()
         else:
             self.reactor = SigVReactor() if inst else VReactor()
+            self.reactor.all_startup_triggers = True  # like ReactorBase.fireSystemEvent("startup")
             if self.idx % 2:
                 # reactor.stop pre-installed as an instance attribute: identity must survive the run
                 orig = self.reactor.stop
@@ -136,9 +140,13 @@ class World:
         """Replays run record h. Returns a list of (clause, expected, observed, sigkey) mismatches."""
         from twisted.internet import defer
 
-        sp, reactor, spinner, U = self.sp, self.reactor, self.spinner, self.unit
+        sp, reactor, U = self.sp, self.reactor, self.unit
         s = h["s"]
         bad = []
+        if s["newSp"] and h["run"] > 1:
+            self.spinner = sp.Spinner(reactor)  # a new Spinner on the same reactor
+        spinner = self.spinner
+        old_d, self.old_d = self.old_d, None
         if h["clr"]:
             was = list(spinner.get_junk())
             got = spinner.clear_junk()
@@ -186,6 +194,9 @@ class World:
                         reactor.stop()
 
                 made["stop"] = reactor.callLater(s["stopAt"] * U, request_stop)
+            if s["fireOld"] != 99 and old_d is not None and not old_d.called:
+                # the still pending Deferred of the previous run fires during this one
+                made["fireold"] = reactor.callLater(s["fireOld"] * U, old_d.callback, self.vold)
             if s["reenter"]:
                 # two attempts: a refused attempt must not open the door for the next one
                 for _ in range(2):
@@ -205,13 +216,16 @@ class World:
                 return defer.succeed(vals[s["v"]])
             if k == "dnowerr":
                 return defer.fail(vals[s["v"]])
-            d = defer.Deferred()
+            d = st["d"] = defer.Deferred()
             if k == "dfire":
                 made["fire"] = reactor.callLater(s["d"] * U, d.callback, vals[s["v"]])
             elif k == "dfail":
                 made["fire"] = reactor.callLater(s["d"] * U, d.errback, vals[s["v"]])
             return d
 
+        if s["early"]:
+            # registered BEFORE run(): fires when the reactor starts, ahead of run()'s own startup trigger
+            reactor.callWhenRunning(lambda: reactor.stop())
         try:
             got = spinner.run(s["T"] * U, f)
             obs_obj = got
@@ -219,6 +233,8 @@ class World:
             for sym in ("None", "zero", "v1", "v2"):
                 if got is vals[sym]:
                     val = sym
+            if got is self.vold:
+                val = "vold"
         except Stuck as ex:
             obs_obj = ex
             cls, val = "Stuck", "-"
@@ -251,7 +267,9 @@ class World:
                 and [a["cls"] for a in allowed] == ["NoResultError"]
                 and cls in ("value", "exception", "TimeoutError")
             )
-            if stale and h["run"] > 1:
+            if cls == "value" and val == "vold":
+                key = "deferred-of-previous-run-becomes-result"
+            elif stale and h["run"] > 1:
                 key = "stale-result-of-previous-run"
             elif late:
                 key = "stop-first-overridden-by-later-event-in-same-iteration"
@@ -259,6 +277,8 @@ class World:
                 key = "%s:%s->%s" % (s["k"], "|".join(sorted(a["cls"] for a in allowed)), cls)
             bad.append(("result", allowed, obs, "run%d:%s" % (min(h["run"], 2), key)))
         self.results.append((cls, obs_obj))
+        if st.get("d") is not None and not st["d"].called:
+            self.old_d = st["d"]
         if s["reenter"] and st["ran"] and st["inner"] != "ReentryError":
             bad.append(("reentry", "ReentryError", st["inner"], "inner:" + st["inner"]))
 
@@ -339,7 +359,7 @@ def replay(hist, idx, real=False, unit=1):
 def nontrivial_key(hist):
     """Non-trivial: a Deferred-returning f with a competing timeout/stop, or leftovers, or reuse."""
     s = hist[0]["s"]
-    if len(hist) > 1 or (s["k"] in ("dfire", "dfail", "never")) or hist[0]["left"] or s["busyAt"] != 99:
+    if len(hist) > 1 or (s["k"] in ("dfire", "dfail", "never")) or hist[0]["left"] or s["busyAt"] != 99 or s["early"]:
         return jdump([(h["s"], h["clr"], h["inst"]) for h in hist])
     return None
 
@@ -367,15 +387,32 @@ def real_sample(behaviours, seed):
     return [v[seed % len(v)] for _, v in sorted(classes.items())]
 
 
+def real_sample2(behaviours, seed):
+    """Two-run scenarios for the private SelectReactor: the first run is stopped by a startup trigger registered
+    before run() (every behaviour of f), the second - same or new Spinner - sees the first run's Deferred fire."""
+    classes = {}
+    for h in behaviours:
+        s1, s2 = h[0]["s"], h[1]["s"]
+        if not s1["early"] or s1["stopAt"] != 99 or s1["extra"] or s2["early"]:
+            continue
+        if s2["fireOld"] not in (99, 1) or s2["k"] not in ("dfire", "never"):
+            continue
+        classes.setdefault((s1["k"], s1["v"], s2["newSp"]), []).append(h)
+    return [v[seed % len(v)] for _, v in sorted(classes.items())]
+
+
 def abstract(hist):
     out = []
     for h in hist:
         s = h["s"]
         out.append(
-            "run%d%s: f=%s(d=%s,%s) T=%s extra=%s sel=%s stopAt=%s reenter=%s busy=%s -> allowed %s"
-            % (h["run"], " after clear_junk" if h["clr"] else "", s["k"], s["d"], s["v"], s["T"], s["extra"], s["sel"],
+            "run%d%s%s: f=%s(d=%s,%s) T=%s extra=%s sel=%s stopAt=%s reenter=%s busy=%s%s%s -> allowed %s"
+            % (h["run"], " after clear_junk" if h["clr"] else "", " (new Spinner)" if s["newSp"] else "",
+               s["k"], s["d"], s["v"], s["T"], s["extra"], s["sel"],
                "-" if s["stopAt"] == 99 else s["stopAt"], s["reenter"],
                "-" if s["busyAt"] == 99 else "%s+%s" % (s["busyAt"], s["busyDt"]),
+               " stop-from-earlier-startup-trigger" if s["early"] else "",
+               "" if s["fireOld"] == 99 else " fires-previous-run's-Deferred-at=%s" % s["fireOld"],
                "|".join(sorted(a["cls"] + ("(" + a["val"] + ")" if a["val"] != "-" else "") for a in h["allowed"])))
         )  # fmt: skip
     return out
@@ -409,7 +446,8 @@ def run(tier, pid="C15"):
     coded = []
     if tier != "quick":
         coded = [
-            ("sp_Ccoded.cfg", "ResultRight", "LateIgnored=FALSE"),
+            ("sp_Dcoded.cfg", "SecondRun", "RunBound=FALSE"),
+            ("sp_Ccoded.cfg", "ResultRight", "LateIgnored=FALSE (the code before fix 7c46244)"),
             ("sp_Bcoded.cfg", "SecondRun", "ResetsResult=FALSE (the code before fix 52cf306)"),
         ]
     rep.extra["ascoded_counterexamples"] = []
@@ -420,15 +458,17 @@ def run(tier, pid="C15"):
         rep.extra["ascoded_counterexamples"].append("TLC: %s violated with %s (%s)" % (inv, what, cfg))
 
     # quick: the real-reactor sample is drawn from sp_A's single-run scenarios (wide gaps only), no extra TLC run
-    jobs = [("sp_A.cfg", "both"), ("sp_B.cfg", False)]
+    jobs = [("sp_A.cfg", "both"), ("sp_B.cfg", False), ("sp_D.cfg", "both")]
     if tier != "quick":
-        jobs = [("sp_AT.cfg", False), ("sp_B.cfg", False), ("sp_BT.cfg", False), ("sp_R.cfg", True)]
+        jobs = [("sp_AT.cfg", False), ("sp_B.cfg", False), ("sp_BT.cfg", False), ("sp_D.cfg", "both"), ("sp_DT.cfg", False),
+                ("sp_R.cfg", True)]  # fmt: skip
     old = {sig: signal.getsignal(sig) for _, sig in SIGS}
     try:
         for cfg, real in jobs:
             r = tlc.run_tlc("twisted", "MCSpinner", cfg, coverage=True, workers=8, timeout=1500)
             tlc.require_ok(r, "C15 " + cfg)
-            acts = ACTIONS + (["ClearJunk", "NextRun"] if cfg not in ("sp_A.cfg", "sp_AT.cfg") else [])
+            acts = ACTIONS + (TWO_RUN if cfg not in ("sp_A.cfg", "sp_AT.cfg") else [])
+            acts += ["EarlyStop"] if cfg.startswith("sp_D") else []
             tlc.require_coverage(r, acts, "C15 " + cfg)
             rep.add_tlc(r, cfg)
             behaviours = sorted(tlc.exported(r), key=jdump)
@@ -436,7 +476,7 @@ def run(tier, pid="C15"):
                 raise tlc.MachineryError("C15 %s exported no scenarios" % cfg)
             todo = [(False, h) for h in behaviours] if real is not True else []
             if real == "both":
-                todo += [(True, h) for h in real_sample(behaviours, rep.seed)]
+                todo += [(True, h) for h in (real_sample2 if cfg.startswith("sp_D") else real_sample)(behaviours, rep.seed)]
             elif real:
                 todo += [(True, h) for h in behaviours]
             gc.collect()
